@@ -28,11 +28,19 @@ func mutateCond(r *Rng, valid string, other string) garbage {
 		}
 		return garbage{"NOT (" + left + " IN (" + bad + ", :v1))", "in-operand", true}
 	case 12, 13: // an unknown byte at the very beginning or the very end
-		ch := pick(r, []string{"\x00", "\xff", "!", "\x80", "\x7f", "\x01"})
-		if r.Chance(60) {
+		// ... including the bytes that other definitions of "white space" would skip (vertical tab, form feed, NEL, NBSP)
+		ch := pick(r, []string{"\x00", "\xff", "!", "\x80", "\x7f", "\x01", "\v", "\f", "\x85", "\xa0", "\v", "\xa0"})
+		switch r.Intn(5) {
+		case 0, 1:
 			return garbage{valid + ch, "unknown-char-edge", true}
+		case 2:
+			return garbage{ch + valid, "unknown-char-edge", true}
 		}
-		return garbage{ch + valid, "unknown-char-edge", true}
+		// in place of a blank between two tokens
+		if i := strings.Index(valid, " "); i > 0 {
+			return garbage{valid[:i] + ch + valid[i+1:], "unknown-char-inside", true}
+		}
+		return garbage{valid + ch, "unknown-char-edge", true}
 	case 9, 10:
 		// an operand where a condition is required, next to a well-formed condition: the verdict must not
 		// depend on whether the item makes the well-formed side decide the connective
@@ -92,11 +100,19 @@ func mutateCond(r *Rng, valid string, other string) garbage {
 func mutateUpdate(r *Rng, valid string) garbage {
 	switch r.Intn(10) {
 	case 8, 9: // an unknown byte at the very beginning or the very end
-		ch := pick(r, []string{"\x00", "\xff", "!", "\x80", "\x7f", "\x01"})
-		if r.Chance(60) {
+		// ... including the bytes that other definitions of "white space" would skip (vertical tab, form feed, NEL, NBSP)
+		ch := pick(r, []string{"\x00", "\xff", "!", "\x80", "\x7f", "\x01", "\v", "\f", "\x85", "\xa0", "\v", "\xa0"})
+		switch r.Intn(5) {
+		case 0, 1:
 			return garbage{valid + ch, "unknown-char-edge", true}
+		case 2:
+			return garbage{ch + valid, "unknown-char-edge", true}
 		}
-		return garbage{ch + valid, "unknown-char-edge", true}
+		// in place of a blank between two tokens
+		if i := strings.Index(valid, " "); i > 0 {
+			return garbage{valid[:i] + ch + valid[i+1:], "unknown-char-inside", true}
+		}
+		return garbage{valid + ch, "unknown-char-edge", true}
 	case 0:
 		return garbage{valid + pick(r, []string{",", " ,", " =", " )", " zz", " :v0 :v1"}), "trailing", true}
 	case 1:
